@@ -187,11 +187,17 @@ func init() {
 func Parse(line string, b literal.Builder) (*Triple, error) {
 	raw := strings.TrimSpace(line)
 	idxp := pSplit.FindIndex([]byte(raw))
-	idxo := oSplit.FindIndex([]byte(raw))
-	if len(idxp) == 0 || len(idxo) == 0 {
+	if len(idxp) == 0 {
 		return nil, fmt.Errorf("triple.Parse could not split s p o  out of %s", raw)
 	}
-	ss, sp, so := raw[0:idxp[0]+1], raw[idxp[1]-1:idxo[0]+1], raw[idxo[1]-1:]
+	// The predicate ends after the subject: look for its end from where it starts.
+	pStart := idxp[1] - 1
+	idxo := oSplit.FindIndex([]byte(raw[pStart:]))
+	if len(idxo) == 0 {
+		return nil, fmt.Errorf("triple.Parse could not split s p o  out of %s", raw)
+	}
+	idxo[0], idxo[1] = idxo[0]+pStart, idxo[1]+pStart
+	ss, sp, so := raw[0:idxp[0]+1], raw[pStart:idxo[0]+1], raw[idxo[1]-1:]
 	s, err := node.Parse(ss)
 	if err != nil {
 		return nil, fmt.Errorf("triple.Parse failed to parse subject %s with error %v", ss, err)
